@@ -1,4 +1,5 @@
 //@host src/io_loop/mod.rs
+//@quick (generic sweep without wall-clock dependence: also runs in the quick tier, labelled bounded)
 // C10 bounded stand-in, end to end through the public API (real I/O thread, in-memory broker): random sequences of open_channel(Some(id))
 // for id in 0..=max+2, open_channel(None) and Channel::close against a model, for channel_max in {1, 2, 5}.
 // Oracle = the property: an explicit id is honoured exactly when it is in 1..=channel_max and not open (else UnavailableChannelId with that
